@@ -118,6 +118,36 @@ def run(chk):
             chk.distinct.add(('history', tuple(order[:8])))
             if bad_h:
                 chk.violation(*bad_h)
+    # the pitch object is the caller's: exported, then renamed / moved through its public setters, then exported again
+    # it spells what a freshly built pitch of the new name and octave spells (and imports back to it)
+    nv = 0
+    for _ in range(400 if not (chk.tier == 'thorough' or b.drift or not b.proof_ok or not b.modelrun_ok) else 4000):
+        r_ = chk.rng
+        def rnd_name():
+            a_ = r_.randint(-3, 3)
+            return 'CDEFGAB'[r_.randrange(7)] + ('+' * a_ if a_ >= 0 else '-' * (-a_))
+        n1, o1, n2, o2 = rnd_name(), r_.randint(-1, 9), rnd_name(), r_.randint(-1, 9)
+        chk.case(('renamed', n1, o1, n2, o2), kind='renamed-object')
+        try:
+            p = kp.AgnosticPitch(n1, o1)
+            ex = kp.HumdrumPitchExporter()
+            first = ex.export_pitch(p)
+            if r_.random() < 0.8:
+                p.name = n2
+            else:
+                n2 = n1
+            if r_.random() < 0.6:
+                p.octave = o2
+            else:
+                o2 = o1
+            got = (ex if r_.random() < 0.5 else kp.HumdrumPitchExporter()).export_pitch(p)
+            want = kp.HumdrumPitchExporter().export_pitch(kp.AgnosticPitch(n2, o2))
+        except Exception as e:
+            got, want = 'raise:' + type(e).__name__, None
+        if got != want and nv < 8:
+            nv += 1
+            chk.violation('export', f'a pitch ({n1},{o1}) was exported ({first!r}), then set to ({n2},{o2}) through its setters: exported again it reads {got!r}, '
+                          f'a fresh ({n2},{o2}) reads {want!r}', {'name': n2, 'octave': o2, 'history': 'export-rename-export'})
     # malformed / unusual spellings: model vs impl only (outside the property's quantifier)
     if model:
         odd = ['', 'c#-', 'cC', 'ccn', 'E-X', 'h', 'c1', '#', '--', 'cd', 'Cc#', 'r', 'cc##-', 'c####', 'c----',
